@@ -246,15 +246,16 @@ Section Store.
   | Crash.                                     (* the main thread panics: the process is gone *)
 
   (* lelwel-ls.rs: DidOpen/DidChange: invalidate; analyze; get_diagnostics.  DidChange takes
-     content_changes.into_iter().next().unwrap().  DidClose: invalidate.  Requests:
+     content_changes.into_iter().last()? - the last entry; with no entry it returns None: nothing
+     is sent and the map is not touched.  DidClose: invalidate.  Requests:
      analyzers.get_mut(uri).unwrap().  A panic happens before the map is touched. *)
   Definition step (s : state) (o : op) : state * out :=
     match o with
     | Open u t => (set u t s, Publish u (analyse t))
     | Change u cs =>
         match cs with
-        | [] => (s, Crash)
-        | t :: _ => (set u t s, Publish u (analyse t))
+        | [] => (s, Silent)
+        | c :: r => (set u (last r c) s, Publish u (analyse (last r c)))
         end
     | Close u => (remove u s, Silent)
     | Request k u line ch =>
@@ -288,37 +289,25 @@ Fixpoint del (u : uri) (l : list uri) : list uri :=
   match l with [] => [] | v :: r => if v =? u then del u r else v :: del u r end.
 
 (* protocol-conformant histories: a document is opened before it is used, not opened twice, not used
-   after it was closed until it is opened again; contentChanges is not empty *)
+   after it was closed until it is opened again.  contentChanges may have any number of entries. *)
 Fixpoint conformant_from (opened : list uri) (h : history) : bool :=
   match h with
   | [] => true
   | Open u _ :: r => negb (mem u opened) && conformant_from (u :: opened) r
-  | Change u cs :: r => mem u opened && negb (match cs with [] => true | _ => false end) && conformant_from opened r
+  | Change u _ :: r => mem u opened && conformant_from opened r
   | Close u :: r => mem u opened && conformant_from (del u opened) r
   | Request _ u _ _ :: r => mem u opened && conformant_from opened r
   end.
 Definition conformant (h : history) : bool := conformant_from [] h.
 
-(* every didChange carries exactly one entry (what clients send under full synchronisation) *)
-Definition single_change (h : history) : bool :=
-  forallb (fun o => match o with Change _ [_] => true | Change _ _ => false | _ => true end) h.
-
-(* the latest text of a document, read off the history alone: the text of the most recent open or
-   change, none after a close.  `pick c r` chooses among the entries c :: r of one change. *)
-Definition upd_with (pick : text -> list text -> text) (u : uri) (cur : option text) (o : op) : option text :=
+(* the latest text of a document, read off the history alone: the text of the most recent open, or
+   the LAST entry of the most recent change that has entries (they apply in order and under full
+   synchronisation each replaces the whole text); none after a close *)
+Definition upd (u : uri) (cur : option text) (o : op) : option text :=
   match o with
   | Open v t => if v =? u then Some t else cur
-  | Change v cs => if v =? u then match cs with [] => cur | c :: r => Some (pick c r) end else cur
+  | Change v cs => if v =? u then match cs with [] => cur | c :: r => Some (last r c) end else cur
   | Close v => if v =? u then None else cur
   | Request _ _ _ _ => cur
   end.
-Definition latest_with pick (h : history) (u : uri) : option text := fold_left (upd_with pick u) h None.
-
-(* by the protocol the entries are applied in order and under full synchronisation each replaces
-   the whole text: the LAST entry is the latest text *)
-Definition pick_last (c : text) (r : list text) : text := last r c.
-Definition latest : history -> uri -> option text := latest_with pick_last.
-
-(* the server takes the FIRST entry *)
-Definition pick_first (c : text) (r : list text) : text := c.
-Definition latest_first : history -> uri -> option text := latest_with pick_first.
+Definition latest (h : history) (u : uri) : option text := fold_left (upd u) h None.
